@@ -60,6 +60,18 @@ def _scales(P):
 @st.composite
 def mirror_case(draw, solver):
     c = draw(cat.riemann_case(solver=solver, n_min=4, n_max=12))
+    if draw(st.integers(0, 5)) == 0:
+        # equal thermodynamic states, opposite velocities: the problem is its own mirror image about the membrane
+        P = c['params']
+        v = abs(P['ul'] - P['ur']) / 2 * draw(st.sampled_from([1.0, -1.0]))
+        if v != 0:
+            Q = dict(P, rr=P['rl'], pr=P['pl'], gr=P['gl'], ul=v, ur=-v)
+            w = cat.riemann_wave_speeds(Q['pl'], Q['rl'], Q['ul'], Q['gl'], Q['pr'], Q['rr'], Q['ur'], Q['gr'])
+            if w is not None and 0.05 * Q['pl'] < w[1] < 8.0 * Q['pl']:
+                span = max(abs(s_) for s_ in w[3]) * c['t']
+                L = max(span, 1e-3) * 2.0
+                c.update(params=dict(Q, xmin=Q['xd0'] - L, xmax=Q['xd0'] + L), pattern=w[0], pstar=w[1], ustar=w[2], speeds=w[3], span=max(span, 1e-3))
+                c['x'] = [Q['xd0'] + f * c['span'] for f in (-1.1, -0.7, -0.3, -0.05, 0.05, 0.3, 0.7, 1.1)]
     c['centre'] = draw(st.one_of(st.just(0.0), st.just(c['params']['xd0']), uni(-2.0, 2.0)))
     return c
 
